@@ -43,6 +43,12 @@ CLAIMS = {
     "C04": ("other",
             "P: the unwrapping loop of unit_cell_molecules executed on symbolic instances (three unit-cell atoms, symbolic integer edge cells, both predecessor orientations, csgraph traversal computed for the concrete topology): for every stored edge the unwrapped atoms sit at their bonding image, all arrays given to the molecule are indexed by one node order sorted by parent site, the recentring translation is an integer lattice vector placing the centre of mass in [0,1). F: edge conventions of unit_cell_connectivity and the shape-safe comparison in symmetry_unique_molecules. The partition / wholeness / count clauses are graph-theoretic facts about scipy's csgraph and KD-tree results: bounded stand-in on generated molecular crystals (40 seeded settings quick, all 530 thorough; equal and different molecules, any atom order, sites listed as symmetry images, any placement relative to the cell).",
             "scipy csgraph / cKDTree assumed; instance-level unwrapping proof; floats as reals; centre of mass above -7 cells"),
+    "C07": ("other",
+            "G (complete over L = 0..64): grid-size rounding rules, FFT bins, work-array shapes from the real constructor. P: orthonormal three-term recurrence coefficients for all symbolic 0 <= m < l in assoc_legendre.py and the mechanically extracted _sht.pyx; per instance L (symbolic data): evaluate_batch, the four pure-Python paths and the extracted kernels equal the quadrature/Fourier oracle, complete_coefficients symmetry, point-wise evaluation equals the harmonic sum, analysis(synthesis(c)) = c under discrete orthonormality of the quadrature rule (hypothesis). B: exactness against scipy harmonics, both round trips, kernels vs pure Python, point-wise, linearity and Parseval for every L = 0..64 to 1e-10. Quadrature/FFT exactness is assumed, so 'exact for every L' as a whole is bounded: level 'other'.",
+            "Gauss-Legendre and FFT exactness assumed; structure proofs per instance L; compiled kernels tied to the .pyx text only by run-time conformance; floats as reals"),
+    "C10": ("other",
+            "G: every CIF item the reader needs is written under the same name; SHELX atom labels (all 103 symbols x label forms) never collide with a keyword. P: an ATOM line written with the real format string and a POSCAR row written with the real f-string read back through the real readers on symbolic values (coordinates within half a unit of the last digit, SFAC index -> element); F: SFAC numbering and POSCAR element blocks. Space-group identification after a round trip is C11 composed with C02. B: whole-file CIF / RES / POSCAR round trips through Crystal.save/load on seeded crystals of 60 settings (all 530 thorough), built in memory or loaded from a file first.",
+            "CIF text layer (C15), CPython parsing, numpy.fromstring model; whole documents only bounded"),
 }
 
 NA_PENDING = "check not built yet in this session (see DESIGN.md section 8 build order)"
